@@ -113,6 +113,54 @@ func scan(p *packages.Package, f *ast.File, rel string) []Site {
 			}
 			funcStack = funcStack[:len(funcStack)-1]
 			return false
+		case *ast.GenDecl:
+			// struct types that live as long as the process and are reachable from block
+			// execution (keepers, the app, ante decorators, msg/query servers): every field is
+			// listed with its type, so that an added in-memory cache (a map, a sync.Map, a
+			// pointer to mutable state that is not rolled back with a failed transaction and
+			// not rebuilt identically after a restart) shows up as a new row
+			if x.Tok == token.TYPE && len(funcStack) == 0 {
+				for _, sp := range x.Specs {
+					ts, ok := sp.(*ast.TypeSpec)
+					if !ok {
+						continue
+					}
+					st, ok := ts.Type.(*ast.StructType)
+					if !ok || !longLived(ts.Name.Name) {
+						continue
+					}
+					for _, fl := range st.Fields.List {
+						ty := exprString(p.Fset, fl.Type)
+						if len(fl.Names) == 0 {
+							out = append(out, Site{Key: rel + "|" + ts.Name.Name + "|field|(embedded) " + ty, Kind: "field", File: rel, Func: ts.Name.Name, Expr: ty})
+						}
+						for _, nm := range fl.Names {
+							out = append(out, Site{Key: rel + "|" + ts.Name.Name + "|field|" + nm.Name + " " + ty, Kind: "field", File: rel, Func: ts.Name.Name, Expr: nm.Name + " " + ty})
+						}
+					}
+				}
+			}
+			// package-level variables of container or pointer type (process-wide mutable state)
+			if x.Tok == token.VAR && len(funcStack) == 0 {
+				for _, sp := range x.Specs {
+					vs, ok := sp.(*ast.ValueSpec)
+					if !ok {
+						continue
+					}
+					for _, nm := range vs.Names {
+						if nm.Name == "_" {
+							continue
+						}
+						obj := p.TypesInfo.Defs[nm]
+						if obj == nil {
+							continue
+						}
+						if mutableContainer(obj.Type()) {
+							out = append(out, Site{Key: rel + "|<package>|pkgvar|" + nm.Name + " " + types.TypeString(obj.Type(), shortQual), Kind: "pkgvar", File: rel, Func: "<package>", Expr: nm.Name})
+						}
+					}
+				}
+			}
 		case *ast.RangeStmt:
 			if t := p.TypesInfo.TypeOf(x.X); t != nil {
 				if _, ok := t.Underlying().(*types.Map); ok {
@@ -123,7 +171,18 @@ func scan(p *packages.Package, f *ast.File, rel string) []Site {
 			add("go", x, exprString(p.Fset, x.Call.Fun))
 		case *ast.SelectStmt:
 			add("select", x, "")
+		case *ast.SelectorExpr:
+			if id, ok := x.X.(*ast.Ident); ok && x.Sel.Name == "Local" {
+				if pn, ok := p.TypesInfo.Uses[id].(*types.PkgName); ok && pn.Imported().Path() == "time" {
+					add("time.Local", x, "")
+				}
+			}
 		case *ast.CallExpr:
+			if sel, ok := x.Fun.(*ast.SelectorExpr); ok && (sel.Sel.Name == "Local" || sel.Sel.Name == "In" || sel.Sel.Name == "MarshalBinary" || sel.Sel.Name == "GobEncode") {
+				if t := p.TypesInfo.TypeOf(sel.X); t != nil && t.String() == "time.Time" {
+					add("time.Time."+sel.Sel.Name, x, exprString(p.Fset, x))
+				}
+			}
 			if sel, ok := x.Fun.(*ast.SelectorExpr); ok {
 				if id, ok := sel.X.(*ast.Ident); ok {
 					if pn, ok := p.TypesInfo.Uses[id].(*types.PkgName); ok {
@@ -136,6 +195,18 @@ func scan(p *packages.Package, f *ast.File, rel string) []Site {
 							add("slices."+name, x, exprString(p.Fset, x.Args[0]))
 						case path == "time" && name == "Now":
 							add("time.Now", x, "")
+						case path == "time" && name == "Date" && len(x.Args) == 8 && exprString(p.Fset, x.Args[7]) == "time.UTC":
+							// explicit UTC: independent of the environment
+						case path == "time" && (name == "Unix" || name == "UnixMilli" || name == "UnixMicro" || name == "Date" || name == "ParseInLocation"):
+							// a Time built from a count or fields carries a location: time.Unix gives the
+							// PROCESS-LOCAL zone, which binary/amino time encodings write into the store
+							add("time."+name, x, exprString(p.Fset, x))
+						case path == "time" && (name == "Since" || name == "Until" || name == "LoadLocation" || name == "After" || name == "Tick" || name == "Sleep" || name == "NewTimer" || name == "NewTicker"):
+							add("time."+name, x, "")
+						case path == "os" && (name == "Getenv" || name == "LookupEnv" || name == "Environ" || name == "Hostname" || name == "Getpid" || name == "Getwd"):
+							add("os."+name, x, exprString(p.Fset, x))
+						case path == "runtime" && (name == "NumCPU" || name == "GOMAXPROCS" || name == "NumGoroutine"):
+							add("runtime."+name, x, "")
 						case path == "math/rand" || path == "crypto/rand" || path == "math/rand/v2":
 							add("rand."+name, x, "")
 						case strings.HasSuffix(path, "/telemetry"):
@@ -154,4 +225,33 @@ func scan(p *packages.Package, f *ast.File, rel string) []Site {
 	}
 	ast.Inspect(f, visit)
 	return out
+}
+
+func longLived(name string) bool {
+	return name == "App" || strings.HasSuffix(name, "Keeper") || strings.HasSuffix(name, "keeper") ||
+		strings.HasSuffix(name, "Decorator") || strings.HasSuffix(name, "Server") || strings.HasSuffix(name, "server") ||
+		strings.HasSuffix(name, "Hooks") || strings.HasSuffix(name, "Handler") || name == "AppModule"
+}
+
+func shortQual(p *types.Package) string { return p.Name() }
+
+// maps, channels, sync/atomic values and pointers to them: state that survives a
+// transaction roll-back and differs between a fresh and a long-running process.
+// Slices and arrays of bytes/strings (key prefixes, name lists) are excluded.
+func mutableContainer(t types.Type) bool {
+	switch u := t.Underlying().(type) {
+	case *types.Map, *types.Chan:
+		return true
+	case *types.Pointer:
+		return mutableContainer(u.Elem()) || isSync(u.Elem())
+	}
+	return isSync(t)
+}
+
+func isSync(t types.Type) bool {
+	if n, ok := t.(*types.Named); ok && n.Obj().Pkg() != nil {
+		pp := n.Obj().Pkg().Path()
+		return pp == "sync" || pp == "sync/atomic"
+	}
+	return false
 }
